@@ -145,7 +145,9 @@ func (g *gen) float() float64 {
 	return f
 }
 func (g *gen) time() time.Time {
-	switch g.rng.Intn(6) {
+	switch g.rng.Intn(7) {
+	case 6:
+		return time.Unix(0, 0).UTC() // the epoch: a first-class value, not "absent"
 	case 0:
 		return time.Time{}
 	case 1:
@@ -374,21 +376,96 @@ func (g *gen) osm() *osm.OSM {
 // ---------------------------------------------------------------- running the implementation
 
 type obs struct {
-	merr    error
-	text    []byte
-	tree    *jnode
-	uerr    error
-	decoded interface{}
-	m, u    int // codec calls (counting configuration)
+	merr     error
+	text     []byte
+	tree     *jnode
+	uerr     error
+	decoded  interface{}
+	m, u     int  // codec calls (counting configuration)
+	retained bool // the decoded value changed when the input buffer was overwritten
 }
 
 // observe marshals v, parses the output with the independent reader, and unmarshals the
 // implementation's own output into a fresh value of the same type.
-func observe(cfg int, v interface{}) *obs {
+func observe(cfg int, v interface{}) *obs { return observeVia(cfg, v, 0, 0) }
+
+// The ways a value can reach the encoder / a target can reach the decoder.  encoding/json
+// only finds pointer-receiver methods on addressable values, so by-value, interface-held and
+// map-held values are exercised as well as pointers, slice elements and struct fields.
+var marshalVias = []string{"pointer", "value", "interface in slice", "map value", "slice element", "interface field of struct"}
+var unmarshalVias = []string{"pointer", "slice element", "map value", "struct field"}
+
+func marshalVia(v interface{}, via int) ([]byte, error) {
+	rv := reflect.ValueOf(v).Elem()
+	var wrapped interface{}
+	var pick func(*jnode) *jnode
+	switch via {
+	case 0:
+		return json.Marshal(v)
+	case 1:
+		return json.Marshal(rv.Interface())
+	case 2:
+		wrapped, pick = []interface{}{rv.Interface()}, func(t *jnode) *jnode { return t.arr[0] }
+	case 3:
+		wrapped, pick = map[string]interface{}{"k": rv.Interface()}, func(t *jnode) *jnode { return t.get("k") }
+	case 4:
+		sl := reflect.MakeSlice(reflect.SliceOf(rv.Type()), 1, 1)
+		sl.Index(0).Set(rv)
+		wrapped, pick = sl.Interface(), func(t *jnode) *jnode { return t.arr[0] }
+	default:
+		wrapped, pick = struct{ X interface{} }{rv.Interface()}, func(t *jnode) *jnode { return t.get("X") }
+	}
+	b, err := json.Marshal(wrapped)
+	if err != nil {
+		return nil, err
+	}
+	t, err := readTree(b)
+	if err != nil {
+		panic(fmt.Sprintf("c05 harness: implementation wrote text the independent reader rejects: %v\n%s", err, b))
+	}
+	var out bytes.Buffer
+	writeCompact(&out, pick(t))
+	return out.Bytes(), nil
+}
+
+func unmarshalVia(text []byte, t reflect.Type, via int) (interface{}, error) {
+	fresh := reflect.New(t)
+	switch via {
+	case 0:
+		return fresh.Interface(), json.Unmarshal(text, fresh.Interface())
+	case 1:
+		sl := reflect.New(reflect.SliceOf(t))
+		err := json.Unmarshal([]byte("["+string(text)+"]"), sl.Interface())
+		if err == nil && sl.Elem().Len() == 1 {
+			fresh.Elem().Set(sl.Elem().Index(0))
+		}
+		return fresh.Interface(), err
+	case 2:
+		m := reflect.New(reflect.MapOf(reflect.TypeOf(""), t))
+		err := json.Unmarshal([]byte(`{"k":`+string(text)+"}"), m.Interface())
+		if err == nil {
+			if e := m.Elem().MapIndex(reflect.ValueOf("k")); e.IsValid() {
+				fresh.Elem().Set(e)
+			}
+		}
+		return fresh.Interface(), err
+	}
+	st := reflect.New(reflect.StructOf([]reflect.StructField{{Name: "X", Type: t, Tag: `json:"x"`}}))
+	err := json.Unmarshal([]byte(`{"x":`+string(text)+"}"), st.Interface())
+	if err == nil {
+		fresh.Elem().Set(st.Elem().Field(0))
+	}
+	return fresh.Interface(), err
+}
+
+// observeVia marshals v (reaching the encoder in the given way), parses the output with the
+// independent reader, and unmarshals the implementation's own output into a fresh value of the
+// same type (reached by the decoder in the given way).
+func observeVia(cfg int, v interface{}, mvia, uvia int) *obs {
 	install(cfg)
 	defer install(0)
 	o := &obs{}
-	o.text, o.merr = json.Marshal(v)
+	o.text, o.merr = marshalVia(v, mvia)
 	o.m = counting.marshals
 	if o.merr != nil {
 		o.tree = jn()
@@ -399,10 +476,8 @@ func observe(cfg int, v interface{}) *obs {
 	if err != nil {
 		panic(fmt.Sprintf("c05 harness: implementation wrote text the independent reader rejects: %v\n%s", err, o.text))
 	}
-	fresh := reflect.New(reflect.TypeOf(v).Elem()).Interface()
-	o.uerr = json.Unmarshal(o.text, fresh)
+	o.decoded, o.uerr = unmarshalVia(o.text, reflect.TypeOf(v).Elem(), uvia)
 	o.u = counting.unmarshals
-	o.decoded = fresh
 	return o
 }
 
@@ -411,9 +486,23 @@ func decodeDoc(cfg int, text []byte) *obs {
 	defer install(0)
 	o := &obs{text: text}
 	fresh := &osm.OSM{}
-	o.uerr = json.Unmarshal(text, fresh)
+	data := append([]byte(nil), text...)
+	o.uerr = json.Unmarshal(data, fresh)
 	o.u = counting.unmarshals
 	o.decoded = fresh
+	if o.uerr == nil {
+		// the caller may reuse its buffer: what was decoded must not alias the input bytes
+		snap := &wire.Case{}
+		putVal(snap, reflect.ValueOf(fresh).Elem())
+		for i := range data {
+			data[i] = '#'
+		}
+		again := &wire.Case{}
+		putVal(again, reflect.ValueOf(fresh).Elem())
+		if !reflect.DeepEqual(snap.Toks, again.Toks) {
+			o.retained = true
+		}
+	}
 	return o
 }
 
@@ -507,7 +596,7 @@ func main() {
 	a := wire.ParseArgs()
 	rng := wire.Rng(a.Seed)
 	w := wire.NewWriter("C05", a.Seed, a.Tier)
-	w.Rule = "typed generator over node/way/relation/changeset/note/user/bounds and OSM/Change containers: every optional part present with probability p in {0,0.3,0.7,1} plus single-field sweeps; each value marshalled and its own output unmarshalled under three codec configurations (default, counting custom codec, reformatting custom codec); independently written osmjson documents (version number/string/absent, unknown keys, shuffled keys, keys spelled in another case, decoy duplicate keys, Overpass lowercase bounds, random whitespace/escapes) and single-fault documents. distinct = distinct token streams; trivial = all-zero values."
+	w.Rule = "typed generator over node/way/relation/changeset/note/user/bounds and OSM/Change containers: every optional part present with probability p in {0,0.3,0.7,1} plus single-field sweeps; each value marshalled (by pointer, by value, held in interfaces, maps, slices, struct fields) and its own output unmarshalled (into pointers, slice elements, map values, struct fields) under three codec configurations (default, counting custom codec, reformatting custom codec); independently written osmjson documents (version number/string/absent, unknown keys, shuffled keys, keys spelled in another case, decoy duplicate keys, Overpass lowercase bounds, random whitespace/escapes) and single-fault documents. distinct = distinct token streams; trivial = all-zero values."
 	nOSM, nElem, nDoc, nBad, nChange, nDirect := 16, 8, 40, 40, 6, 6
 	if a.Tier == "thorough" {
 		nOSM, nElem, nDoc, nBad, nChange, nDirect = 200, 80, 500, 400, 60, 60
@@ -515,16 +604,30 @@ func main() {
 	sc := func(n int) int { return int(float64(n)*a.Scale + 0.5) }
 	nOSM, nElem, nDoc, nBad, nChange, nDirect = sc(nOSM), sc(nElem), sc(nDoc), sc(nBad), sc(nChange), sc(nDirect)
 
+	viaCtr := 0
 	addRound := func(tag, sel int, v interface{}, class string, nElems int) {
 		var base *obs
+		mvia, uvia := viaCtr%len(marshalVias), (viaCtr/len(marshalVias))%len(unmarshalVias)
+		viaCtr++
+		w.Count("marshal via " + marshalVias[mvia])
+		w.Count("unmarshal via " + unmarshalVias[uvia])
+		before := &wire.Case{}
+		putVal(before, reflect.ValueOf(v).Elem())
 		for cfg := range configs {
-			o := observe(cfg, v)
+			o := observeVia(cfg, v, mvia, uvia)
 			s := sel
 			if tag != 2 {
 				s = cfg
 			}
 			c := roundCase(tag, s, v, o, class+"/"+configs[cfg])
+			c.Desc.(map[string]interface{})["marshalled_via"] = marshalVias[mvia]
+			c.Desc.(map[string]interface{})["unmarshalled_via"] = unmarshalVias[uvia]
 			c.OracleFail = goOracle(cfg, v, o, base, nElems)
+			after := &wire.Case{}
+			putVal(after, reflect.ValueOf(v).Elem())
+			if c.OracleFail == "" && !reflect.DeepEqual(before.Toks, after.Toks) {
+				c.OracleFail = "marshalling modified the value it was given"
+			}
 			if base == nil {
 				base = o
 			}
@@ -650,6 +753,26 @@ func main() {
 			w.Add(c)
 		}
 	}
+	// 2d. size thresholds: containers and independently written documents with n elements for n
+	//     just below / at / above powers of two and round numbers (and not multiples of 8, 16..),
+	//     judged on the Go side (counts and ids per kind, in order); the Coq side sees the
+	//     small sizes through the ordinary cases.
+	sizes := []int{12, 13, 16, 17, 32, 33, 63, 64, 65, 255, 256, 257, 1000, 1023, 1024, 1025, 2047, 2048, 2049, 2051, 4095, 4096, 4097, 4099}
+	if a.Tier == "thorough" {
+		sizes = append(sizes, 8176, 8177, 8191, 8192, 8193, 10007, 32767, 32768, 32769, 65535, 65536, 65537, 100003)
+	}
+	for _, n := range sizes {
+		for cfg := range configs {
+			if a.Tier != "thorough" && cfg == 1 && n > 300 {
+				continue // the counting codec only delegates: big sizes under default and reformat
+			}
+			c := &wire.Case{Class: "go-only-size/" + configs[cfg]}
+			c.Int(5)
+			c.OracleFail, c.Desc = sizeCase(cfg, n)
+			w.Add(c)
+			w.Count(fmt.Sprintf("size:%d", n))
+		}
+	}
 	// 3. independently written documents
 	for i := 0; i < nDoc; i++ {
 		dg := &docGen{rng: rng, p: []float64{0.2, 0.5, 0.8, 1}[i%4]}
@@ -663,7 +786,9 @@ func main() {
 		for cfg := range configs {
 			o := decodeDoc(cfg, b.Bytes())
 			c := docCase(cfg, doc, exp, o, "doc/"+configs[cfg])
-			if o.uerr != nil {
+			if o.retained {
+				c.OracleFail = "the decoded value aliases the input bytes (changed when the caller's buffer was overwritten)"
+			} else if o.uerr != nil {
 				c.OracleFail = "well-formed osmjson document rejected: " + o.uerr.Error()
 			} else if exp.Version == "" && o.decoded.(*osm.OSM).Version != "" {
 				c.OracleFail = fmt.Sprintf("absent version became %q", o.decoded.(*osm.OSM).Version)
@@ -780,4 +905,124 @@ func canonTagsTop(j *jnode) *jnode {
 		}
 	}
 	return canonTags(j.clone())
+}
+
+// sizeCase: an OSM value with n elements (half nodes, a quarter ways, an eighth relations, the
+// rest changesets, users and notes; ids 1..n) is marshalled and its output unmarshalled; and
+// an independently written document with the same n elements, kinds interleaved, is
+// unmarshalled.  Every element must come back, per kind, in order.
+func sizeCase(cfg, n int) (string, interface{}) {
+	install(cfg)
+	defer install(0)
+	desc := map[string]interface{}{"codec": configs[cfg], "elements": n}
+	o := &osm.OSM{Version: "0.6"}
+	doc := jobj().set("version", jdec(6, 1))
+	es := &jnode{k: jArr}
+	want := map[string][]int64{}
+	for i := 0; i < n; i++ {
+		id := int64(i + 1)
+		kind := "node"
+		switch {
+		case i%2 == 0:
+		case i%4 == 1:
+			kind = "way"
+		case i%8 == 3:
+			kind = "relation"
+		case i%24 == 7:
+			kind = "changeset"
+		case i%24 == 15:
+			kind = "user"
+		default:
+			kind = "note"
+		}
+		want[kind] = append(want[kind], id)
+		e := jobj().set("type", js(kind)).set("id", jint(id))
+		switch kind {
+		case "node":
+			o.Nodes = append(o.Nodes, &osm.Node{ID: osm.NodeID(id), Lat: float64(i % 90), Lon: 0.5})
+			e.set("lat", jint(int64(i%90))).set("lon", jdec(5, 1))
+		case "way":
+			o.Ways = append(o.Ways, &osm.Way{ID: osm.WayID(id), Nodes: osm.WayNodes{{ID: osm.NodeID(id - 1)}}})
+			e.set("nodes", jarr(jint(id-1)))
+		case "relation":
+			o.Relations = append(o.Relations, &osm.Relation{ID: osm.RelationID(id), Members: osm.Members{{Type: osm.TypeNode, Ref: id - 3, Role: "r"}}})
+			e.set("members", jarr(jobj().set("type", js("node")).set("ref", jint(id-3)).set("role", js("r"))))
+		case "changeset":
+			o.Changesets = append(o.Changesets, &osm.Changeset{ID: osm.ChangesetID(id)})
+		case "user":
+			o.Users = append(o.Users, &osm.User{ID: osm.UserID(id)})
+		default:
+			o.Notes = append(o.Notes, &osm.Note{ID: osm.NoteID(id)})
+		}
+		es.arr = append(es.arr, e)
+	}
+	doc.set("elements", es)
+	ids := func(x *osm.OSM) map[string][]int64 {
+		m := map[string][]int64{}
+		for _, e := range x.Nodes {
+			m["node"] = append(m["node"], int64(e.ID))
+		}
+		for _, e := range x.Ways {
+			m["way"] = append(m["way"], int64(e.ID))
+		}
+		for _, e := range x.Relations {
+			m["relation"] = append(m["relation"], int64(e.ID))
+		}
+		for _, e := range x.Changesets {
+			m["changeset"] = append(m["changeset"], int64(e.ID))
+		}
+		for _, e := range x.Users {
+			m["user"] = append(m["user"], int64(e.ID))
+		}
+		for _, e := range x.Notes {
+			m["note"] = append(m["note"], int64(e.ID))
+		}
+		return m
+	}
+	diff := func(got map[string][]int64) string {
+		for _, k := range []string{"node", "way", "relation", "changeset", "user", "note"} {
+			if len(got[k]) != len(want[k]) {
+				return fmt.Sprintf("%d %ss came back instead of %d", len(got[k]), k, len(want[k]))
+			}
+			for i := range want[k] {
+				if got[k][i] != want[k][i] {
+					return fmt.Sprintf("%s #%d has id %d instead of %d", k, i, got[k][i], want[k][i])
+				}
+			}
+		}
+		return ""
+	}
+	// own output
+	b, err := json.Marshal(o)
+	if err != nil {
+		return "marshal failed: " + err.Error(), desc
+	}
+	t, err := readTree(b)
+	if err != nil {
+		return "output is not JSON: " + err.Error(), desc
+	}
+	if el := t.get("elements"); el == nil || el.k != jArr || len(el.arr) != n {
+		return fmt.Sprintf("container with %d elements: output has no elements array of that length", n), desc
+	}
+	back := &osm.OSM{}
+	if err := json.Unmarshal(b, back); err != nil {
+		return fmt.Sprintf("container with %d elements: own output does not unmarshal: %v", n, err), desc
+	}
+	if d := diff(ids(back)); d != "" {
+		return fmt.Sprintf("container with %d elements, own output unmarshalled: %s", n, d), desc
+	}
+	// independently written document, kinds interleaved
+	var buf bytes.Buffer
+	writeCompact(&buf, doc)
+	fromDoc := &osm.OSM{}
+	if err := json.Unmarshal(buf.Bytes(), fromDoc); err != nil {
+		return fmt.Sprintf("document with %d elements rejected: %v", n, err), desc
+	}
+	if d := diff(ids(fromDoc)); d != "" {
+		return fmt.Sprintf("document with %d elements: %s", n, d), desc
+	}
+	if len(fromDoc.Ways) > 0 && (len(fromDoc.Ways[len(fromDoc.Ways)-1].Nodes) != 1) {
+		return fmt.Sprintf("document with %d elements: last way lost its nodes", n), desc
+	}
+	return "", desc
 }
